@@ -38,7 +38,11 @@ CONSTANTS Threads,     \* e.g. {"t1","t2","t3"}
           Ttls,        \* window lengths explored  (>= 1)
           Modes,       \* subset of {"lock", "fine", "nolock"}
           MaxClock,    \* Tick bound
-          MaxOps       \* presentations per thread
+          MaxOps,      \* presentations per thread
+          Canon        \* FALSE: any nonce may be presented next.  TRUE: histories are explored up to renaming of
+                       \* nonces -- a nonce never presented before may only be the first unused one in the order
+                       \* "a" < "b" < "c" < "d" (used for the long sequential family, where nonce symmetry cannot
+                       \* be used because the dumped paths are replayed on the real object)
 
 None == "none"
 
@@ -97,7 +101,16 @@ Init == /\ cap \in Caps /\ ttl \in Ttls /\ mode \in Modes
         /\ accepted = {} /\ accNow = [x \in Nonces |-> 0] /\ others = [x \in Nonces |-> {}]
         /\ conc = [x \in Nonces |-> {}] /\ bad = {}
 
-ReadClock(t, x) == /\ pc[t] = "idle" /\ ops[t] < MaxOps
+Used == accepted \cup {nonce[u] : u \in {v \in Threads : pc[v] # "idle"}}
+NonceRank(x) == CASE x = "a" -> 1 [] x = "b" -> 2 [] x = "c" -> 3 [] x = "d" -> 4 [] OTHER -> 5
+\* (IF, not a disjunction: TLC would split a disjunctive guard into sub-actions and generate the successor twice)
+Canonical(x) == IF ~Canon THEN TRUE
+                ELSE IF x \in Used THEN TRUE
+                ELSE \A y \in Nonces : NonceRank(y) < NonceRank(x) => y \in Used
+\* sequential family only (ACTION_CONSTRAINT): the clock advances between presentations, not inside one
+TickWhenIdle == (clock' # clock) => \A t \in Threads : pc[t] = "idle"
+
+ReadClock(t, x) == /\ pc[t] = "idle" /\ ops[t] < MaxOps /\ Canonical(x)
                    /\ nonce' = [nonce EXCEPT ![t] = x] /\ now' = [now EXCEPT ![t] = clock]
                    /\ pc' = [pc EXCEPT ![t] = "want"]
                    /\ UNCHANGED <<params, clock, entries, lock, ops, last, hvars>>
